@@ -43,7 +43,7 @@ def plan(tier):
     return {"cases": 4000 if tier == "quick" else 100000, "shards": 16, "case_timeout": 30, "shard_timeout": 3000,
             "min_nontrivial": 100,
             "min_counters": {"next_events": 5000, "iterators_started": 5000, "sequential_reevaluations": 500,
-                             "interleaved_schedules": 500}}
+                             "interleaved_schedules": 500, "rule_cases_with_more_than_32_results": 20}}
 
 
 def setup(ctx):
@@ -113,6 +113,10 @@ def gen(rng, tier, ctx):
     sequential = rng.random() < 0.45
     nq = 2
     schedule = gen_schedule(rng, nq, sequential)
+    if pattern == "rule" and rng.random() < 0.3:
+        # many bindings: whatever an evaluation remembers per concluded binding grows beyond a few dozen entries
+        world = G.gen_world(rng, n=rng.randint(70, 90))
+        dom = list(range(len(world)))
     if pattern == "domainless_join":
         # nested loops only: the join is advanced a few times, the other query runs from start to end (or is closed
         # early), then the join goes on.  (Two iterators that walk the shared variable in alternation are the listed
@@ -302,6 +306,8 @@ def run(spec, ctx):
             recover(ctx)
             C["reference_raises"] += 1
             return {"status": "skip"}
+    if spec["pattern"] == "rule" and any(len(r) > 32 for r in ref):
+        C["rule_cases_with_more_than_32_results"] += 1
     qs = build_queries(spec, m, armed)
     its, got, owner, closed = {}, {}, {}, {}
     n_it = 0
